@@ -1,6 +1,7 @@
 //! rvh: correspondence harness. Each sub-command drives the real roughenough code (library
 //! in-process, or the real binaries) and prints one case per line: `op \t args.. \t impl-output`.
 //! The Lean driver answers each line with a verdict (see /verif/lean/Rough/Driver).
+mod cfg;
 mod client;
 mod codec;
 mod keys;
@@ -12,6 +13,10 @@ mod util;
 
 fn main() {
     let args: Vec<String> = std::env::args().collect();
+    if args.len() >= 3 && args[1] == "cfgprobe" {
+        cfg::probe(&args[2]);
+        return;
+    }
     if args.len() < 2 {
         eprintln!("usage: rvh <stream> [--seed N] [--tier quick|thorough] [--shard i/n]");
         std::process::exit(2);
@@ -49,6 +54,7 @@ fn main() {
         "merkle" => merkle::run(&ctx),
         "srv" => srv::run(&ctx),
         "sign" => keys::run_sign(&ctx),
+        "cfg" => cfg::run(&ctx),
         "client-honest" => client::run_honest(&ctx),
         "client-forged" => client::run_forged(&ctx),
         "stats" => stats::run(&ctx),
@@ -89,6 +95,7 @@ fn replay(ctx: &Ctx) {
             "dec" | "disp" | "enc" => codec::replay_one(&mut out, op, args),
             "merkle" => merkle::replay_one(&mut out, args),
             "srv" => srv::replay_one(&mut out, args),
+            "cfg" => cfg::replay_one(&mut out, args),
             "client" => client::replay_one(&mut out, args),
             "stats" | "rep" => stats::replay_one(&mut out, op, args),
             "sign" | "vrf" | "ltk" | "srep" => keys::replay_one(&mut out, op, args),
